@@ -603,16 +603,39 @@ def kani_playback(pkg, ob, flags, stage_dir, scratch):
     res["generated"] = True
     res["test_name"] = test_name
     res["test_source"] = test_src
-    cmd2 = ["cargo", "kani", "playback", "-Z", "concrete-playback", "-p", pkg, "--", test_name]
-    rc2, out2, err2, secs2, to2 = run(cmd2, cwd=stage_dir, timeout=1800, env={"CARGO_TARGET_DIR": os.path.join(scratch, "target-playback-" + pkg)})
-    res["playback_cmd"] = " ".join(cmd2)
-    res["playback_rc"] = rc2
-    tail = "\n".join(l for l in (out2 + "\n" + err2).split("\n") if len(l) < 400)
-    res["playback_output_tail"] = tail[-3000:]
-    ran = re.search(r"test result: (ok|FAILED)\. (\d+) passed; (\d+) failed", out2 + err2)
-    res["native_tests_ran"] = bool(ran)
-    res["reproduced_on_real_code"] = bool(ran) and int(ran.group(3)) > 0
-    res["native_all_passed"] = bool(ran) and int(ran.group(3)) == 0 and int(ran.group(2)) > 0
+    # every generated test (one per failed check) is executed natively IN ITS OWN PROCESS: harnesses keep ghost
+    # state in `static mut`s, which Kani resets per harness but a shared test process would not
+    names = []
+    for root, _, fs in os.walk(os.path.join(stage_dir, "packages")):
+        if "/target" in root:
+            continue
+        for fn in fs:
+            if fn.endswith(".rs"):
+                s = open(os.path.join(root, fn), errors="replace").read()
+                names += re.findall(r"fn (kani_concrete_playback_" + re.escape(ob["harness"]) + r"_\d+)\(\)", s)
+    names = sorted(set(names))[:6]
+    env = {"CARGO_TARGET_DIR": os.path.join(scratch, "target-playback-" + pkg)}
+    passed = failed = 0
+    outs = []
+    for nm in names:
+        cmd2 = ["cargo", "kani", "playback", "-Z", "concrete-playback", "-p", pkg, "--", nm, "--exact", "--test-threads=1"]
+        rc2, out2, err2, secs2, to2 = run(cmd2, cwd=stage_dir, timeout=1800, env=env)
+        # --exact needs the full path; fall back to substring filter
+        ran = re.search(r"test result: (ok|FAILED)\. (\d+) passed; (\d+) failed", out2 + err2)
+        if not ran or (int(ran.group(2)) + int(ran.group(3)) == 0):
+            cmd2 = ["cargo", "kani", "playback", "-Z", "concrete-playback", "-p", pkg, "--", nm, "--test-threads=1"]
+            rc2, out2, err2, secs2, to2 = run(cmd2, cwd=stage_dir, timeout=1800, env=env)
+            ran = re.search(r"test result: (ok|FAILED)\. (\d+) passed; (\d+) failed", out2 + err2)
+        res["playback_cmd"] = " ".join(cmd2)
+        tail = "\n".join(l for l in (out2 + "\n" + err2).split("\n") if len(l) < 400 and ("panicked" in l or "test " in l or "assert" in l.lower()))
+        outs.append(f"== {nm}\n" + tail[-1200:])
+        if ran:
+            passed += int(ran.group(2))
+            failed += int(ran.group(3))
+    res["playback_output_tail"] = "\n".join(outs)[-6000:]
+    res["native_tests_ran"] = passed + failed
+    res["reproduced_on_real_code"] = failed > 0
+    res["native_all_passed"] = failed == 0 and passed > 0
     return res
 
 
@@ -869,17 +892,11 @@ def check(prop, tier, seed, units, scratch, t0, args):
                 rep["counterexample_playback"] = pb
                 if not pb.get("generated"):
                     suffix = " no-failing-input-found"
-                only_asserts = all(".assertion." in (c.get("name") or "") for c in (o.get("failed_checks") or [{}]))
-                if pb.get("native_all_passed") and only_asserts:
-                    # Kani's counterexample for a plain assertion does not fail when executed natively on the real code:
-                    # the model is imprecise here (e.g. address comparisons); undecided, not an alarm.
-                    o["undecided"] = True
-                    o["messages"] = ["counterexample did not replay on the real code (native playback of every generated test passed): " + "; ".join(o.get("messages") or [])[:600]]
-                    spurious.append(o)
-                    with open(rp, "w") as f:
-                        f.write(f"# NOT A VIOLATION: Kani counterexample did not replay natively\n# property={prop}\n# obligation={o['id']}\n")
-                        f.write(json.dumps(rep, indent=1)[:60000])
-                    continue
+                if pb.get("generated") and not pb.get("reproduced_on_real_code"):
+                    # Kani printed a counterexample but executing it natively did not fail (Kani's concrete playback is
+                    # known to be incomplete for values drawn inside callbacks): still a violation of an obligation
+                    # that holds on the unchanged tree, but without a validated failing input.
+                    suffix = " no-failing-input-found"
             else:
                 # Verus: paired native search, if the unit declares one for this obligation
                 unit = [u for u in involved_units if u["name"] == o["unit"]][0]
@@ -903,12 +920,6 @@ def check(prop, tier, seed, units, scratch, t0, args):
             print(f"VIOLATION property={prop} replay={rp}{suffix}")
             for msg in (o.get("messages") or [])[:4]:
                 log("   " + msg.replace("\n", "\n   ")[:1500])
-        violations = [o for o in violations if o not in spurious]
-        undecided += spurious
-        if not violations:
-            rcode = 2
-            for o in spurious:
-                log(f"UNDECIDED obligation {o['id']}: {o['messages'][0][:400]}")
     elif undecided:
         rcode = 2
         for o in undecided:
